@@ -87,13 +87,13 @@ fn scenario(name: &str, bound: usize, threads: Vec<Vec<Op>>) -> Scenario {
 fn scenarios(ctx: &Ctx) -> Vec<Scenario> {
     let q = ctx.quick();
     // 2 threads: effectively unbounded (bound 8 exceeds the number of scheduling points that can be preempted usefully)
-    let b2 = if q { 4 } else { 8 };
+    let b2 = if q { 6 } else { 10 };
     let mut v = vec![
         scenario("2t-two-pools-3MiB", b2, vec![vec![Op::Alloc(1, 3 * MIB)], vec![Op::Alloc(0, 3 * MIB)]]),
         scenario("2t-same-pool-3MiB", b2, vec![vec![Op::Alloc(1, 3 * MIB)], vec![Op::Alloc(1, 3 * MIB)]]),
         scenario("2t-alloc-release-vs-alloc", b2, vec![vec![Op::AllocRelease(1, 3 * MIB), Op::Alloc(1, MIB + MIB / 2)], vec![Op::Alloc(0, 3 * MIB)]]),
         scenario("2t-shared-vs-query", b2, vec![vec![Op::Alloc(4, 3 * MIB)], vec![Op::Alloc(1, MIB + MIB / 2), Op::Alloc(1, MIB + MIB / 2)]]),
-        scenario("3t-three-pools", if q { 2 } else { 3 }, vec![vec![Op::Alloc(0, MIB + MIB / 2)], vec![Op::Alloc(1, MIB + MIB / 2)], vec![Op::Alloc(2, MIB + MIB / 2)]]),
+        scenario("3t-three-pools", if q { 3 } else { 4 }, vec![vec![Op::Alloc(0, MIB + MIB / 2)], vec![Op::Alloc(1, MIB + MIB / 2)], vec![Op::Alloc(2, MIB + MIB / 2)]]),
     ];
     if !q {
         v.push(scenario("3t-small-and-large", 3, vec![vec![Op::Alloc(0, 64 * 1024), Op::Alloc(0, 3 * MIB)], vec![Op::Alloc(1, 3 * MIB)], vec![Op::AllocRelease(3, MIB + MIB / 2)]]));
@@ -107,7 +107,7 @@ impl Check for C39 {
         let mut s = Spec::new(
             "C39",
             "model_checking",
-            "every schedule with at most c preemptions (scheduling points = every atomic load/CAS of budget.rs) of 2-3 threads x 1-2 allocate/release calls near a 4 MiB limit, same and different pools; 2 threads: c=4 (quick) / 8 (thorough), 3 threads: c=2/3. A state = one complete schedule (distinct by construction); oracle evaluated at quiescence against a ledger of successful calls.",
+            "every schedule with at most c preemptions (scheduling points = every atomic load/CAS of budget.rs) of 2-3 threads x 1-2 allocate/release calls near a 4 MiB limit, same and different pools; 2 threads: c=6 (quick) / 10 (thorough), 3 threads: c=3/4. A state = one complete schedule (distinct by construction); oracle evaluated at quiescence against a ledger of successful calls.",
         );
         s.assumptions = &["sequentially consistent atomics (shuttle)"];
         s.cap_quick_s = 90;
